@@ -189,6 +189,60 @@ def _declared_default(prog, callee, kwname):
     return None
 
 
+_LIB_INDEX = {}
+
+
+def _library_default(callee, kwname):
+    """source text of the default that the installed numpy / scipy / networkx sources declare for the keyword of a function
+    named like the callee -- found by PARSING their .py files (nothing is imported or run); None if not found or if
+    same-named functions disagree"""
+    import importlib.util
+    last = callee.split('.')[-1]
+    if not last.isidentifier():
+        return None
+    if last not in _LIB_INDEX:
+        found = []
+        roots = []
+        for pkg in ('numpy', 'scipy', 'networkx'):
+            try:
+                spec = importlib.util.find_spec(pkg)
+                if spec and spec.submodule_search_locations:
+                    roots.extend(spec.submodule_search_locations)
+            except Exception:
+                pass
+        needle = 'def %s(' % last
+        for root in roots:
+            for dp, dn, fn in os.walk(root):
+                dn[:] = [d for d in dn if d not in ('tests', '__pycache__', 'testing')]
+                for f in fn:
+                    if not f.endswith('.py'):
+                        continue
+                    try:
+                        text = open(os.path.join(dp, f), encoding='utf-8', errors='replace').read()
+                        if needle not in text:
+                            continue
+                        tree = ast.parse(text)
+                    except Exception:
+                        continue
+                    for n in ast.walk(tree):
+                        if isinstance(n, (ast.FunctionDef, ast.AsyncFunctionDef)) and n.name == last:
+                            # dispatcher stubs (`def _f_dispatcher(...)`) have other names; this is the public definition
+                            a = n.args
+                            pos = a.posonlyargs + a.args
+                            d = {}
+                            for arg, dv in zip(pos[len(pos) - len(a.defaults):], a.defaults):
+                                d[arg.arg] = src(dv)
+                            for arg, dv in zip(a.kwonlyargs, a.kw_defaults):
+                                if dv is not None:
+                                    d[arg.arg] = src(dv)
+                            found.append(d)
+        _LIB_INDEX[last] = found
+    vals = {d[kwname] for d in _LIB_INDEX[last] if kwname in d}
+    if len(vals) == 1:
+        return next(iter(vals))
+    return None
+
+
 def _is_default_keyword(expr, kwname):
     for c in ast.walk(expr):
         if isinstance(c, ast.Call):
@@ -200,6 +254,9 @@ def _is_default_keyword(expr, kwname):
                 # a function of the repository itself: spelling out the declared default changes nothing
                 callee = src(c.func)
                 if _declared_default(_PROG[0], callee, kwname) == src(kw.value):
+                    return True
+                # a numpy / scipy / networkx function: the default declared in the installed sources (parsed, not imported)
+                if callee.split('.')[0] in ('np', 'numpy', 'scipy', 'nx', 'networkx') and _library_default(callee, kwname) == src(kw.value):
                     return True
     return False
 
